@@ -21,6 +21,7 @@ class Op(object):
         self.mem_bits = None
         self.lit = None
         self.tree = False
+        self.elementwise = False
 
 
 def _counts(ty):
@@ -31,7 +32,7 @@ OPS = []
 
 
 def op(*a, **k):
-    extra = dict((x, k.pop(x)) for x in ('whole', 'ptr_type', 'mem_bits', 'lit', 'tree') if x in k)
+    extra = dict((x, k.pop(x)) for x in ('whole', 'ptr_type', 'mem_bits', 'lit', 'tree', 'elementwise') if x in k)
     o = Op(*a, **k)
     for x, v in extra.items():
         setattr(o, x, v)
@@ -337,3 +338,11 @@ for _al, _mode in (('a', 'aligned'), ('u', 'unaligned')):
     op('cstore_%s' % _al, 'complex', C16, FPS, 'bbP', 'void', 'C_<{T}>(a, b).store_%s(o)' % _mode, WS.cstore_spec(_al == 'a'), whole=True, ptr_type=_cplx)
 
 BY_NAME = dict((o.name, o) for o in OPS)
+
+
+# element-wise operations whose spec is a whole-register one: they take part in C13 (lane dependence + position uniformity)
+for _o in OPS:
+    if _o.name in ('batch_cast', 'to_int', 'to_float', 'nearbyint_as_int', 'ldexp', 'frexp_m', 'frexp_e'):
+        _o.elementwise = True
+        if 'C13' not in _o.props:
+            _o.props = list(_o.props) + ['C13']
